@@ -220,10 +220,25 @@ function familyS (tier, opts = {}) {
   return { leaves, stats: r.stats }
 }
 
+// P: operations whose operands are `+` expressions, under configurations with the plus operator DISABLED
+// (the operand is then not turned into a hook call by the child-first traversal)
+function familyP (tier, opts = {}) {
+  const atoms = ['a + b', "a + 'x'", 'f() + b', "'l' + 'm'", 'a']
+  const leaves = []
+  let stats = { states: 0, transitions: 0 }
+  const extra = [{ kind: 'method', tpl: 'a.concat(b + f(), a)', slots: [] }, { kind: 'method', tpl: 'a.concat(a + f(), b, a)', slots: [] }, { kind: 'tpl', tpl: '`${b + f()}${a}`', slots: [] }, { kind: 'bare', tpl: 'aloneMethod(b + f(), a)', slots: [] }]
+  for (const sc of G.SCHEMAS.filter((x) => ['tpl', 'method', 'proto', 'bare', 'chain'].includes(x.kind) && x.slots.length).concat(extra)) {
+    const r = enumerate(sc.slots.map((s) => ({ name: s, symbols: s === 'S' ? ['arr'] : atoms, free: true })).concat([{ name: 'config', symbols: ['METHODS_ONLY', 'TPL_ONLY', 'FULL'], free: true }]), {})
+    stats = addStats(stats, r.stats)
+    for (const l of r.leaves) leaves.push(mkLeaf('P', Object.assign({ op: sc.tpl, opkind: sc.kind }, l.pick)))
+  }
+  return { leaves, stats }
+}
+
 function all (tier, opts = {}) {
   let leaves = []
   let stats = { states: 1, transitions: 0 }
-  const fams = { A: familyA, B: familyB, C: familyC, G: familyG, M: familyM, S: familyS }
+  const fams = { A: familyA, B: familyB, C: familyC, G: familyG, M: familyM, S: familyS, P: familyP }
   for (const f of (opts.families || ['A', 'B', 'C', 'G'])) {
     const r = fams[f](tier, opts[f] || {})
     leaves = leaves.concat(r.leaves)
@@ -236,4 +251,4 @@ function all (tier, opts = {}) {
   return { leaves: uniq, stats }
 }
 
-module.exports = { familyA, familyB, familyC, familyG, familyM, familyS, M_FNS, S_STMTS, all, REP_OPS, REP_OPS_Q, CONFIGS, mkLeaf }
+module.exports = { familyP, familyA, familyB, familyC, familyG, familyM, familyS, M_FNS, S_STMTS, all, REP_OPS, REP_OPS_Q, CONFIGS, mkLeaf }
